@@ -7,6 +7,7 @@ import (
 	"fmt"
 	"go/token"
 	"go/types"
+	"path/filepath"
 	"strings"
 
 	"golang.org/x/tools/go/ssa"
@@ -126,6 +127,7 @@ func (fr *Frame) callWithContract(callee *ssa.Function, ct *Contract, fv *FnVal,
 		fr.bindFailure(&Clause{Kind: "modifies", Text: shortFn(callee)}, err)
 		c.havocAll(st)
 	} else {
+		ms.preserve = append(ms.preserve, ct.Preserves...)
 		c.applyHavoc(st, old, ms, !ct.Pure)
 	}
 	sig := callee.Signature
@@ -149,6 +151,7 @@ func (fr *Frame) callWithContract(callee *ssa.Function, ct *Contract, fv *FnVal,
 
 // ModSet: which locations may change, per heap component.
 type ModSet struct {
+	preserve []string // with all: struct types (pkgname.Type) whose field heaps keep their values
 	heaps map[string][]func(r string) string // predicates "r may be modified"; nil entry = whole heap
 	whole map[string]bool
 	refs  map[string][]string // single references (cheap store-based havoc)
@@ -181,7 +184,7 @@ func (m *ModSet) names() []string {
 // applyHavoc replaces the modifiable locations by unknown values.
 func (c *FnCtx) applyHavoc(st, old *State, ms *ModSet, mayAlloc bool) {
 	if ms.all {
-		c.havocAll(st)
+		c.havocAllBut(st, ms.preserve, nil)
 		return
 	}
 	oldAlloc := c.heapGet(old, "alloc", allocSort)
@@ -273,6 +276,9 @@ func (fr *Frame) invoke(cc *ssa.CallCommon, recv Val, args []Val, resT types.Typ
 	name := cc.Method.FullName()
 	if m := c.eng.invokeModel(name); m != nil {
 		return m(fr, recv, args, resT, st, reach, pos)
+	}
+	if ct := c.eng.ifaceContract(cc); ct != nil {
+		return fr.invokeWithContract(cc, ct, recv, args, resT, st, reach, pos)
 	}
 	pk := ""
 	if cc.Method.Pkg() != nil {
@@ -612,4 +618,85 @@ func (fr *Frame) selectStmt(x *ssa.Select, st *State, reach string) Val {
 		}
 	}
 	return Val{T: x.Type(), Tuple: vals}
+}
+
+// invokeWithContract: a call through an interface uses the (assumed) contract attached to the
+// interface method.
+func (fr *Frame) invokeWithContract(cc *ssa.CallCommon, ct *Contract, recv Val, args []Val, resT types.Type, st *State, reach string, pos token.Pos) Val {
+	c := fr.c
+	name := cc.Method.FullName()
+	c.assumedExternal["interface method "+name+": assumed contract ("+filepath.Base(ct.File)+")"] = true
+	sig := cc.Method.Type().(*types.Signature)
+	env := &CEnv{c: c, names: map[string]Val{}, st: st, old: st, pkg: cc.Method.Pkg()}
+	for i := 0; i < sig.Params().Len() && i < len(args); i++ {
+		if n := sig.Params().At(i).Name(); n != "" && n != "_" {
+			v := args[i]
+			v.T = sig.Params().At(i).Type()
+			env.names[n] = v
+		}
+	}
+	env.names["recv"] = recv
+	fr.oblige("safety", "nil interface in call "+c.eng.srcText(pos, "call"), reach, not(eq(c.termOf(recv), "0")), pos)
+	for _, cl := range ct.clauses("requires") {
+		for _, cj := range conjuncts(cl.Expr) {
+			t, err := env.evalBool(cj)
+			if err != nil {
+				fr.bindFailure(cl, err)
+				continue
+			}
+			fr.oblige("pre", name+" requires "+cj.String(), reach, t, pos)
+		}
+	}
+	old := st.clone()
+	ms, err := env.modSet(ct)
+	if err != nil {
+		fr.bindFailure(&Clause{Kind: "modifies", Text: name}, err)
+		c.havocAll(st)
+	} else {
+		for _, tn := range ct.Preserves {
+			if _, err := env.resolveType(&CType{Kind: "name", Name: tn}); err != nil {
+				fr.bindFailure(&Clause{Kind: "preserves", Text: tn}, err)
+				continue
+			}
+			ms.preserve = append(ms.preserve, tn)
+		}
+		c.applyHavoc(st, old, ms, true)
+	}
+	var results []Val
+	for i := 0; i < sig.Results().Len(); i++ {
+		results = append(results, fr.havocVal(sig.Results().At(i).Type(), "res."+cc.Method.Name()))
+	}
+	env2 := *env
+	env2.st = st
+	env2.old = old
+	env2.results = results
+	for _, cl := range ct.clauses("ensures") {
+		t, err := env2.evalBool(cl.Expr)
+		if err != nil {
+			fr.bindFailure(cl, err)
+			continue
+		}
+		c.smt.assume(implies(reach, t), "assumed ensures of "+name+": "+cl.Text)
+	}
+	return packResults(resT, results)
+}
+
+// havocAllBut forgets the heap except the field heaps of the named struct types (ownership
+// assumption stated by a `preserves` clause) that are not in `except`.
+func (c *FnCtx) havocAllBut(st *State, preserve []string, except map[string]bool) {
+	keep := map[string]string{}
+	for _, h := range sortedKeys(c.heapSorts) {
+		for _, tn := range preserve {
+			if strings.HasPrefix(h, "F."+sanitize(tn)+".") && !except[h] {
+				keep[h] = c.heapGet(st, h, c.heapSorts[h])
+			}
+		}
+	}
+	oldAlloc := c.heapGet(st, "alloc", allocSort)
+	c.havocAll(st)
+	for k, v := range keep {
+		st.heaps[k] = v
+	}
+	na := c.heapGet(st, "alloc", allocSort)
+	c.smt.assume(fmt.Sprintf("(forall ((r Int)) (! (=> (select %s r) (select %s r)) :pattern ((select %s r))))", oldAlloc, na, na), "allocation only grows")
 }
